@@ -25,6 +25,9 @@ SelPtrNames == <<"p_i32", "p_u8", "p_i8", "p_char", "p_void", "p_i16", "p_u64", 
 PtrNames == SelPtrNames \o <<"p_u16", "p_u32", "p_long", "p_ulong", "p_i64">>
 \* structs by value: register classes INTEGER, SSE, mixed, MEMORY (> 16 bytes)
 StructNames == <<"sA", "sB", "sC", "sD", "sE", "sF", "sG", "sH", "sI", "sJ", "sK">>
+\* structs whose fields are arrays of one or more dimensions (libffi gets a flattened element
+\* list): <= 16 bytes all-SSE / mixed / all-INTEGER, and > 16 bytes (MEMORY)
+ArrStructNames == <<"sL", "sM", "sN", "sO", "sP", "sQ", "sR", "sS", "sT">>
 StructFields(n) == CASE n = "sA" -> <<"i8", "i32">>
                      [] n = "sB" -> <<"i64", "i64", "i64">>
                      [] n = "sC" -> <<"f32", "f32">>
@@ -36,13 +39,25 @@ StructFields(n) == CASE n = "sA" -> <<"i8", "i32">>
                      [] n = "sI" -> <<"i64", "f64">>
                      [] n = "sJ" -> <<"i32", "i32", "i32", "i32", "u16">>
                      [] n = "sK" -> <<"p_i32", "char", "bool">>
+                     [] n = "sL" -> <<"f32[2][2]">>
+                     [] n = "sM" -> <<"f64[2][1]">>
+                     [] n = "sN" -> <<"i16[2][3]", "f32">>
+                     [] n = "sO" -> <<"f32[2]">>
+                     [] n = "sP" -> <<"char[3]", "f64[1][2]">>
+                     [] n = "sQ" -> <<"f64[2][2]">>
+                     [] n = "sR" -> <<"i16[2][2]", "char[2][2]">>
+                     [] n = "sS" -> <<"f32[3]", "i32">>
+                     [] n = "sT" -> <<"char[2][2][2]", "f32[1][2]">>
+ArrT(t, n) == [k |-> "arr", item |-> t, len |-> n]
 Range(s) == {s[i] : i \in 1..Len(s)}
 Ints == Range(IntNames)
 Scalars == Range(ScalarSeq)
 Ptrs == Range(PtrNames)
-Structs == Range(StructNames)
-AllT == Scalars \cup Range(SelPtrNames) \cup Structs
-ClsT == AllT \cup Ptrs
+PlainStructs == Range(StructNames)
+ArrStructs == Range(ArrStructNames)
+Structs == PlainStructs \cup ArrStructs
+AllT == Scalars \cup Range(SelPtrNames) \cup PlainStructs
+ClsT == AllT \cup Ptrs \cup ArrStructs
 
 PItem(n) == CASE n = "p_i32" -> "i32" [] n = "p_u8" -> "u8" [] n = "p_i8" -> "i8"
               [] n = "p_char" -> "char" [] n = "p_void" -> "void" [] n = "p_i16" -> "i16"
@@ -54,6 +69,12 @@ Ty(n) == IF n \in Ints THEN IntOf(n)
          ELSE CASE n = "bool" -> BoolT [] n = "char" -> CharT
                 [] n = "f32" -> FloatT(4) [] n = "f64" -> FloatT(8)
                 [] n = "void" -> VoidT
+                [] n = "f32[2][2]" -> ArrT(ArrT(FloatT(4), 2), 2) [] n = "f64[2][1]" -> ArrT(ArrT(FloatT(8), 1), 2)
+                [] n = "i16[2][3]" -> ArrT(ArrT(IntT(2, TRUE), 3), 2) [] n = "f32[2]" -> ArrT(FloatT(4), 2)
+                [] n = "char[3]" -> ArrT(CharT, 3) [] n = "f64[1][2]" -> ArrT(ArrT(FloatT(8), 2), 1)
+                [] n = "f64[2][2]" -> ArrT(ArrT(FloatT(8), 2), 2) [] n = "i16[2][2]" -> ArrT(ArrT(IntT(2, TRUE), 2), 2)
+                [] n = "char[2][2]" -> ArrT(ArrT(CharT, 2), 2) [] n = "f32[3]" -> ArrT(FloatT(4), 3)
+                [] n = "char[2][2][2]" -> ArrT(ArrT(ArrT(CharT, 2), 2), 2) [] n = "f32[1][2]" -> ArrT(ArrT(FloatT(4), 2), 1)
                 [] n \in Ptrs -> PtrT(Ty(PItem(n)))
                 [] n \in Structs -> [k |-> "struct", tag |-> n,
                                      fields |-> [i \in 1..Len(StructFields(n)) |-> Ty(StructFields(n)[i])]]
@@ -154,7 +175,10 @@ Derefable(cls) == cls \in {"same", "arr", "voidp", "charp", "ucharp", "list_ok",
 \* ... and to writable storage
 Writable(cls) == cls \in {"same", "arr", "voidp", "charp", "ucharp", "list_ok", "tuple_ok"}
 
-FieldOk(t) == CASE t.k = "ptr" -> CPtr(t, 0) [] OTHER -> ItemOk(t)
+RECURSIVE FieldOk(_)
+FieldOk(t) == CASE t.k = "ptr" -> CPtr(t, 0)
+                [] t.k = "arr" -> PList([i \in 1..t.len |-> FieldOk(t.item)])
+                [] OTHER -> ItemOk(t)
 StructClasses == {"same", "other", "list_ok", "tuple_ok", "list_short", "list_long", "list_ovf",
                   "list_badtype", "none", "int", "ptr_to_same", "dict_ok", "dict_short"}
 StructRep(t, cls) ==
@@ -206,6 +230,10 @@ Tup(S, n) == [1..n -> S]
 Rot(seq, start, step, n) == [i \in 1..n |-> seq[((start + (i - 1) * step) % Len(seq)) + 1]]
 WideSeq == ScalarSeq \o <<"p_i32", "p_void">>
 SelSigs == {<<"SIG", "sel", a, k>> : a \in UNION {Tup(AllT, n) : n \in 1..MaxN}, k \in 1..MaxN}
+           \cup {<<"SIG", "sel", a, k>> : a \in {<<s>> : s \in ArrStructs}
+                                              \cup {<<s, x>> : s \in ArrStructs, x \in Scalars \cup ArrStructs}
+                                              \cup {<<x, s>> : s \in ArrStructs, x \in Scalars},
+                                         k \in 1..2}
 SelOk(s) == s[4] <= Len(s[3])
 WideSigs == {<<"SIG", "sel", Rot(WideSeq, st, sp, n), ((st + sp) % n) + 1>> :
                  st \in 0..(Len(WideSeq) - 1), sp \in {1, 3, 5}, n \in 5..WideN}
@@ -216,8 +244,8 @@ MemT == Ints \cup {"bool", "char", "f32", "f64"}
 WrSigs == {<<"SIG", "wr", t>> : t \in MemT}
 RdiSigs == {<<"SIG", "rdi", t>> : t \in Ints \cup {"bool", "char", "f64"}}
 BumpSigs == {<<"SIG", "bump", t>> : t \in Ints}
-StructSigs == {<<"SIG", "smake", s>> : s \in Structs}
-              \cup {<<"SIG", "sget", s, k>> : s \in Structs, k \in 1..5}
+StructSigs == {<<"SIG", "smake", s>> : s \in PlainStructs}
+              \cup {<<"SIG", "sget", s, k>> : s \in PlainStructs, k \in 1..5}
 SgetOk(s) == s[2] # "sget" \/ s[4] <= Len(StructFields(s[3]))
 VSigs == {<<"SIG", "vsum", a>> : a \in UNION {Tup(VarClasses, n) : n \in 0..MaxN}}
          \cup {<<"SIG", "vsum", Rot(<<"c_i8", "c_u64", "c_f64", "c_ptr", "c_i32", "c_u16", "c_long", "c_char",
